@@ -54,3 +54,13 @@ func SafeAddUint64(a uint64, b uint64) (r uint64, err error)
   ensures overflow-is-error: a + b >= 18446744073709551616 ==> r == 0 && err != nil
   assigns nothing
 @*/
+
+/*@
+func MaxInt(a int, b int) (r int)
+  ensures r == max(a, b)
+  assigns nothing
+
+func MinInt(a int, b int) (r int)
+  ensures r == min(a, b)
+  assigns nothing
+@*/
